@@ -1267,6 +1267,15 @@ let () =
   regl "net" op_net orc_net;
   reg "item" op_item orc_item;
   regl "itemx" op_itemx orc_itemx;
+  reg "stampx" (fun _ -> []) (fun _ impl ->
+      (* state, date, [target's timestamp,] Timestamp(): the last must be what Pub.*_timestamp computes from the others *)
+      let s64 hi lo = let v = z_of_halves hi lo in if hi >= 2147483648 then Z.sub v (Z.mul (z_of_int 4294967296) (z_of_int 4294967296)) else v in
+      let fv st v = (match st with 0 -> FOk v | 1 -> FAbsent | _ -> FErr []) in
+      match impl with
+      | [0; 0; st; h1; l1; h2; l2] -> [("timestamp_equals_model", post_timestamp (fv st (s64 h1 l1)) = s64 h2 l2)]
+      | [0; 1; st; h1; l1; h2; l2] -> [("timestamp_equals_model", actor_timestamp (fv st (s64 h1 l1)) = s64 h2 l2)]
+      | [0; 2; st; h1; l1; h3; l3; h2; l2] -> [("timestamp_equals_model", activity_timestamp (fv st (s64 h1 l1)) (s64 h3 l3) = s64 h2 l2)]
+      | _ -> []);
   reg "ui" op_ui orc_ui;
   reg "uipub" op_uipub orc_uipub;
   reg "uisub" (fun args ->
